@@ -59,7 +59,12 @@ pub fn spawn_tftpd(extra: &[&str], ipv6: bool) -> Result<Proc, String> {
         let port = free_port(ipv6);
         let ip = if ipv6 { "::1" } else { "127.0.0.1" };
         let mut cmd = Command::new(tftpd_path());
-        cmd.args(["-i", ip, "-p", &port.to_string(), "-d", &format!("{dir}/srv")]).args(extra).stdin(Stdio::null()).stdout(Stdio::null()).stderr(Stdio::null());
+        // "@first:" arguments go in front of -d (flag order must not matter); "{dir}" is replaced by the sandbox directory
+        let fix = |a: &str| a.trim_start_matches("@first:").replace("{dir}", &dir);
+        let first: Vec<String> = extra.iter().filter(|a| a.starts_with("@first:")).map(|a| fix(a)).collect();
+        let rest: Vec<String> = extra.iter().filter(|a| !a.starts_with("@first:")).map(|a| fix(a)).collect();
+        let extra = &rest;
+        cmd.args(&first).args(["-i", ip, "-p", &port.to_string(), "-d", &format!("{dir}/srv")]).args(extra).stdin(Stdio::null()).stdout(Stdio::null()).stderr(Stdio::null());
         die_with_parent(&mut cmd);
         let child = cmd.spawn().map_err(|e| format!("spawn: {e}"))?;
         let addr: SocketAddr = format!("{}:{}", if ipv6 { "[::1]" } else { "127.0.0.1" }, port).parse().unwrap();
@@ -106,6 +111,15 @@ pub fn spawn_tftpd(extra: &[&str], ipv6: bool) -> Result<Proc, String> {
 /// canonical probe: a plain RRQ of the 3-block file, carried to its end. Ok(()) or Err(reason)
 pub fn liveness_probe(addr: SocketAddr) -> Result<(), String> {
     let s = udp_client(addr.is_ipv6());
+    liveness_probe_from(&s, addr)
+}
+
+pub fn liveness_probe_from(s: &UdpSocket, addr: SocketAddr) -> Result<(), String> {
+    // drain whatever earlier datagrams left in this socket
+    let _ = s.set_nonblocking(true);
+    let mut junk = vec![0u8; 70000];
+    while s.recv_from(&mut junk).is_ok() {}
+    let _ = s.set_nonblocking(false);
     let _ = s.set_read_timeout(Some(BACKSTOP));
     let _ = s.send_to(&rc::request(false, b"probe.bin", &[]), addr);
     let want = probe_content();
@@ -254,7 +268,12 @@ fn run_sequence(single: bool, read_only: bool, seq: &[(usize, bool)], alpha: &[(
     }
     // the listen loop is sequential: once the probe is answered everything before it has been handled
     let mut verdict = None;
-    let r = liveness_probe(p.addr);
+    let mut r = liveness_probe(p.addr);
+    let non_request = |i: usize| alpha[i].1.len() < 2 || !matches!(u16::from_be_bytes([alpha[i].1[0], alpha[i].1[1]]), 1 | 2);
+    if r.is_ok() && after_transfer && seq.iter().all(|(i, other)| !*other && non_request(*i)) {
+        // ... and so must a NEW request from the endpoint that completed a transfer before and then sent the stray datagrams
+        r = liveness_probe_from(&s1, p.addr).map_err(|e| format!("second request from the endpoint that had completed a transfer: {e}"));
+    }
     let exited = p.child.try_wait().ok().flatten();
     if let Some(st) = exited {
         verdict = Some(("terminated".to_string(), format!("tftpd exited with {st} (probe: {:?})", r.err())));
